@@ -1,6 +1,8 @@
 import Bmc.Proofs.C19
 import Bmc.Proofs.EndToEnd.IsolationC19
+import Bmc.Proofs.SourcePins
 #print axioms Bmc.Proofs.C19.isolation
 #print axioms Bmc.Proofs.C19.no_shared_writes
 #print axioms Bmc.Proofs.C19.shared_state_inventory
 #print axioms Bmc.Proofs.EndToEnd.generated_SendCommand_isolation
+#print axioms Bmc.Proofs.SourcePins.pinned_sources
